@@ -558,8 +558,9 @@ fn parent_main<H: Harness>(h: H, a: Args, plan: crate::Plan) -> i32 {
     if !truncated_jobs.is_empty() {
         caps.push(format!("wall budget reached inside {} job(s) (first: {})", truncated_jobs.len(), truncated_jobs[0]));
     }
+    let mut notes: Vec<String> = Vec::new();
     if digests_capped {
-        caps.push("outcome-digest set capped at 3,000,000 per worker: distinct_nontrivial is a lower bound".into());
+        notes.push("outcome-digest set capped at 3,000,000 per worker: distinct_nontrivial is a lower bound (coverage itself is not affected)".into());
     }
     if e2_incomplete {
         caps.push("explicit-state search hit its state cap".into());
@@ -586,6 +587,7 @@ fn parent_main<H: Harness>(h: H, a: Args, plan: crate::Plan) -> i32 {
             "engine": h.engine(),
             "bounds": plan.bounds,
             "caps_hit": caps,
+            "notes": notes,
             "jobs_total": jobs.len(),
             "jobs_completed": stats.iter().filter(|s| !s.truncated).count(),
             "workers": workers,
